@@ -61,7 +61,35 @@ def model_args(prop):
 
 
 def spec_args(prop):
-    return None
+    return "trace" if prop in TRACE_PROPS else None
+
+
+TRACE_PROPS = {"C01", "C02", "C03", "C05", "C08", "C09", "C10"}
+
+
+def run_trace_judge(prop, cases, impl):
+    """evaluate the Lean Spec (Iauthd.Proto.Hist) on the implementation's records"""
+    jcases = []
+    for c, ir in zip(cases, impl):
+        lines = []
+        for i, op in enumerate(c.lines[1:]):
+            lines.append(op)
+            lines.append("=> " + (ir[i] if i < len(ir) else ("fault (no record)" if i == len(ir) else "")))
+        jc = Case(c.name, lines)
+        jcases.append(jc)
+    recs, _ = core.run_cases([core.drv_path(DRIVER), "judge"], jcases)
+    return recs
+
+
+def judge(prop, case, ir, sr):
+    if sr is None:
+        return False
+    for i, r in enumerate(sr):
+        if r.startswith("viol "):
+            for item in r[5:].split("|"):
+                if item.startswith(prop + ":"):
+                    return (i, item)
+    return False
 
 
 def header_len(case):
